@@ -212,6 +212,166 @@ theorem machine_ended (cs : List LCmd) (hw : WFL cs) (K : Nat) (ht : Terminates 
     obtain ⟨_, e2, e3, _⟩ := machine_end cs hw K ht.k1 ht.live ht.off ht.time
     exact ⟨c1.trans e2, c2.trans e3, c3⟩
 
+/-! ### programs that do not terminate (a loop with count 0): answers up to a horizon -/
+
+/-- the first `K` machine steps are known, stay within 2^24 ms, and pass the horizon `H` -/
+structure RunsPast (cs : List LCmd) (K H : Nat) : Prop where
+  k1 : 1 ≤ K
+  live : LiveM cs K
+  time : ∀ j, j ≤ K → (am cs j).m.T ≤ 16777216
+  past : H < (am cs K).m.T
+
+theorem rchain (cs : List LCmd) (hw : WFL cs) (K H : Nat) (hr : RunsPast cs K H) (j : Nat) (h1 : 1 ≤ j) (hj : j ≤ K) :
+    (chain (encodeL cs) j).exec.ended = false ∧ (chain (encodeL cs) j).current = (am cs (j - 1)).m.T ∧
+    (chain (encodeL cs) j).next = (am cs j).m.T := by
+  obtain ⟨i, rfl⟩ : ∃ i, j = i + 1 := ⟨j - 1, by omega⟩
+  obtain ⟨f, _, c1, c2⟩ := machine_chain cs hw i (liveM_mono hr.live hj) (fun q hq => hr.time q (by omega))
+  exact ⟨f.ended, c1, c2⟩
+
+/-- a live chain point that starts by the horizon is one of the first `K` -/
+theorem within_horizon (cs : List LCmd) (hw : WFL cs) (K H : Nat) (hr : RunsPast cs K H) (k : Nat)
+    (hl : liveUpTo (encodeL cs) (k + 1)) (hc : (chain (encodeL cs) k).current ≤ H) : k ≤ K := by
+  by_contra hgt
+  have h1 := chain_next_le_current (encodeL cs) K k (by omega) (hl.mono (by omega))
+  rw [(rchain cs hw K H hr K hr.k1 (Nat.le_refl _)).2.2] at h1
+  have := hr.past
+  omega
+
+theorem r_fades_short (cs : List LCmd) (hw : WFL cs) (K H : Nat) (hr : RunsPast cs K H) : FadesShortUpTo (encodeL cs) H := by
+  intro k hl hc ha
+  have hk := within_horizon cs hw K H hr k hl hc
+  by_cases hk0 : k = 0
+  · subst hk0
+    have : (chain (encodeL cs) 0).exec.trActive = false := (fresh_exec (encodeL cs)).2.1
+    rw [this] at ha; exact absurd ha (by decide)
+  · obtain ⟨i, rfl⟩ : ∃ i, k = i + 1 := ⟨k - 1, by omega⟩
+    have hli : LiveM cs (i + 1) := liveM_mono hr.live (by omega)
+    obtain ⟨f, af, _, _⟩ := machine_chain cs hw i hli (fun q hq => hr.time q (by omega))
+    have hT := hr.time (i + 1) (by omega)
+    rw [am_m_succ cs i hli, LCmd.applyM_T] at hT
+    generalize (cs[(am cs i).idx]'(hli i (by omega))).asCmd = c at af hT
+    cases c with
+    | fade en r g b d =>
+      by_cases hd0 : d = 0
+      · simp only [GAfter, hd0, if_true] at af
+        rw [af.1] at ha; exact absurd ha (by decide)
+      · simp only [GAfter, hd0, if_false] at af
+        rw [af.2.2.1]
+        simp only [Cmd.nextR, Cmd.next] at hT
+        omega
+    | sleep d => rw [af.1] at ha; exact absurd ha (by decide)
+    | set en r g b d => rw [af.1] at ha; exact absurd ha (by decide)
+    | pyro m => rw [af.1] at ha; exact absurd ha (by decide)
+    | pyroSet m => rw [af.1] at ha; exact absurd ha (by decide)
+    | nop => rw [af.1] at ha; exact absurd ha (by decide)
+    | waitUntil v => rw [af.1] at ha; exact absurd ha (by decide)
+
+theorem r_not_instant (cs : List LCmd) (hw : WFL cs) (K H : Nat) (hr : RunsPast cs K H) (t : Nat) (h0 : 0 < t)
+    (hni : ∀ j, j ≤ K → (am cs j).m.T ≠ t) : NotInstantUpTo (encodeL cs) H t := by
+  intro k hl hc
+  have hk := within_horizon cs hw K H hr k hl hc
+  by_cases hk0 : k = 0
+  · subst hk0; rw [chain0_next]; omega
+  · rw [(rchain cs hw K H hr k (by omega) hk).2.2]
+    exact hni k hk
+
+/-- **C02 for programs with loops that need not terminate**: as long as all timestamps asked for (in the history and now) lie
+below a horizon `H` that the machine passes within its first `K` steps (each within 2^24 ms), the answer between machine
+step `k` and `k+1` is the machine's -/
+theorem machine_running_upTo (cs : List LCmd) (hw : WFL cs) (K H : Nat) (hrp : RunsPast cs K H) (hist : List (Nat × Nat))
+    (hH : ∀ x ∈ hist, x.1 ≤ H) (t f : Nat) (htH : t ≤ H)
+    (p r : Player) (hp : seekAll (Player.fresh (encodeL cs)) hist = .ok p) (hr : p.seek t f = .ok r)
+    (k : Nat) (hk : k < K) (h1 : (am cs k).m.T < t) (h2 : t < (am cs (k + 1)).m.T)
+    (hni : ∀ j, j ≤ K → (am cs j).m.T ≠ t) :
+    r.exec.color = specM ((cs[(am cs k).idx]'(hrp.live k hk)).asCmd) (am cs k).m t ∧
+    r.exec.pyro = (am cs (k + 1)).m.pyro ∧ r.exec.ended = false := by
+  have hshort := r_fades_short cs hw K H hrp
+  have hnot := r_not_instant cs hw K H hrp t (by omega) hni
+  rcases answer_on_chain_upTo (encodeL cs) H hshort hist hH t f htH p r hp hr hnot with
+    ⟨k', hk', hl', b1, b2, hcol, hpy, hend, _⟩ | ⟨m, hm, hlm, he, hc, _, _, _⟩
+  · have hk'n : k' ≤ K := within_horizon cs hw K H hrp k' hl' (by omega)
+    obtain ⟨_, c1, c2⟩ := rchain cs hw K H hrp k' hk' hk'n
+    rw [c1] at b1
+    rw [c2] at b2
+    have hkk : k' = k + 1 := by
+      rcases Nat.lt_trichotomy k' (k + 1) with hlt | heq | hgt
+      · have := am_T_mono_le cs K hrp.live k' k (by omega) (by omega); omega
+      · exact heq
+      · have := am_T_mono_le cs K hrp.live (k + 1) (k' - 1) (by omega) (by omega); omega
+    subst hkk
+    have hli : LiveM cs (k + 1) := liveM_mono hrp.live (by omega)
+    obtain ⟨fr, af, _, _⟩ := machine_chain cs hw k hli (fun q hq => hrp.time q (by omega))
+    refine ⟨?_, by rw [hpy, fr.pyro], hend⟩
+    rw [hcol]
+    have hT := hrp.time (k + 1) (by omega)
+    have hm := am_m_succ cs k hli
+    rw [hm, LCmd.applyM_T] at hT h2
+    simp only [Nat.add_sub_cancel] at b1
+    generalize (cs[(am cs k).idx]'(hli k (by omega))).asCmd = c at af hT h2
+    have idle : (chain (encodeL cs) (k + 1)).exec.trActive = false →
+        (chain (encodeL cs) (k + 1)).exec.color = c.colour (am cs k).m.col →
+        (stepFade (chain (encodeL cs) (k + 1)).exec t).color = c.colour (am cs k).m.col := by
+      intro t1 t2
+      unfold stepFade; simp [t1, t2]
+    cases c with
+    | fade en r g b d =>
+      by_cases hd0 : d = 0
+      · simp only [GAfter, hd0, if_true] at af
+        simp only [specM, hd0, if_true]
+        have := idle af.1 (by rw [af.2.1]; rfl)
+        rw [this]; rfl
+      · simp only [GAfter, hd0, if_false] at af
+        simp only [specM, hd0, if_false]
+        obtain ⟨a1, a2, a3, a4, a5, a6⟩ := af
+        simp only [Cmd.nextR, Cmd.next] at hT h2
+        have hD : 20 * d ≤ 16777216 := by omega
+        unfold stepFade
+        rw [if_pos a1, fadeFinish_color]
+        unfold transitionStep
+        simp only [progress_eq, a2, a3, a4, a5]
+        rw [progressOf_exact _ _ _ (le_of_lt h1) (by omega) hD]
+    | sleep d => exact idle af.1 af.2.1
+    | set en r g b d => exact idle af.1 af.2.1
+    | pyro m => exact idle af.1 af.2.1
+    | pyroSet m => exact idle af.1 af.2.1
+    | nop => exact idle af.1 af.2.1
+    | waitUntil v => exact idle af.1 af.2.1
+  · -- the program cannot have ended by the horizon
+    exfalso
+    by_cases hlt : m ≤ K
+    · have := (rchain cs hw K H hrp m hm hlt).1
+      rw [this] at he; exact absurd he (by decide)
+    · have h3 := chain_next_le_current (encodeL cs) K m (by omega) hlm
+      rw [(rchain cs hw K H hrp K hrp.k1 (Nat.le_refl _)).2.2] at h3
+      have := hrp.past
+      omega
+
+/-- non-vacuity: red / blue for ever (loop count 0); the first 40 steps are known and pass 3 s -/
+def demoForever : List LCmd := [.loopBegin 0, .base (.set .rgb 255 0 0 10), .base (.set .rgb 0 0 255 10), .loopEnd]
+
+theorem demoForever_wf : WFL demoForever := by
+  refine ⟨?_, by decide, ?_⟩
+  · intro c hc
+    simp only [demoForever, List.mem_cons, List.mem_nil_iff, or_false] at hc
+    rcases hc with rfl | rfl | rfl | rfl <;> simp [LCmd.ok, Cmd.ok, Enc.fits]
+  · have : encodeL demoForever = [12, 0, 4, 255, 0, 0, 10, 4, 0, 0, 255, 10, 13] := by
+      simp only [encodeL, demoForever, List.map, LCmd.bytes, Cmd.bytes, List.flatten, varint_small 10 (by decide)]
+      decide
+    rw [this]; decide
+
+theorem demoForever_runs : RunsPast demoForever 40 3000 := ⟨by decide, by unfold LiveM; decide, by decide, by decide⟩
+
+/-- whatever was asked before (below 3 s), at 2500 ms the forever-loop shows red (13th colour command) -/
+example (hist : List (Nat × Nat)) (hH : ∀ x ∈ hist, x.1 ≤ 3000) (f : Nat) (p r : Player)
+    (hp : seekAll (Player.fresh (encodeL demoForever)) hist = .ok p) (hr : p.seek 2500 f = .ok r) :
+    r.exec.color = (255, 0, 0) ∧ r.exec.ended = false := by
+  have h := machine_running_upTo demoForever demoForever_wf 40 3000 demoForever_runs hist hH 2500 f (by decide) p r hp hr 19
+    (by decide) (by decide) (by decide) (by decide)
+  have e1 : specM ((demoForever[(am demoForever 19).idx]'(demoForever_runs.live 19 (by decide))).asCmd) (am demoForever 19).m 2500
+      = (255, 0, 0) := by decide
+  rw [e1] at h
+  exact ⟨h.1, h.2.2⟩
+
 /-- **loops repeat their body the stated number of times** (on the machine; restated from `loop_unrolled`) -/
 theorem loop_repeats (cs : List LCmd) (body : List Cmd) (n i0 : Nat) (s : AM) (hn : 1 ≤ n)
     (hend : s.ended = false) (hidx : s.idx = i0) (hdepth : s.stack.length < 4)
